@@ -135,6 +135,59 @@ def impl_vocab(case):
                     if scope != want:
                         raise SystemExit(f'sublime: {word!r} is taken by the rule for {scope} (matching {m.group(0)!r}), not by {want}')
                     break
+        # a configured register written as the operand of an instruction or macro is classified as a register: both grammars
+        # take, at the leftmost position where any rule of the active context matches, the rule listed first
+        def s_flat(items, seen=()):
+            rules = []
+            for it in items:
+                if 'include' in it:
+                    if it['include'] not in seen:
+                        rules += s_flat(ctx.get(it['include'], []), seen + (it['include'],))
+                elif 'match' in it:
+                    rules.append((it['match'], it.get('scope') or ('pop' if it.get('pop') else 'captures')))
+            return rules
+
+        def v_flat(pats, seen=()):
+            rules = []
+            for it in pats:
+                if 'include' in it:
+                    nm = it['include'].lstrip('#')
+                    if nm not in seen and nm in g:
+                        rules += v_flat([g[nm]], seen + (nm,))
+                elif 'match' in it:
+                    rules.append((it['match'], it.get('name', 'captures')))
+                elif 'begin' in it:
+                    rules.append((it['begin'], it.get('name', 'begin')))
+                elif 'patterns' in it:
+                    rules += v_flat(it['patterns'], seen)
+            return rules
+
+        def first_rule(rules, text):
+            best = None
+            for idx, (pat, scope) in enumerate(rules):
+                try:
+                    m = re.search(pat, text)
+                except re.error:
+                    continue
+                if m and (best is None or m.start() < best[0]):
+                    best = (m.start(), idx, scope)
+            return best[2] if best else None
+        operand_contexts = []
+        for d in ctx['instructions']:
+            if str(d.get('scope', '')).startswith('variable.function') and 'push' in d:
+                pushed = d['push']
+                operand_contexts.append(('sublime ' + d['scope'], s_flat(ctx[pushed] if isinstance(pushed, str) else pushed)))
+        operand_contexts.append(('vscode instructions', v_flat(g['instructions']['patterns'])))
+        if 'macros' in g:
+            operand_contexts.append(('vscode macros', v_flat(g['macros']['patterns'])))
+        taken = set(x.lower() for x in case['instrs'] + case['macros'])
+        for r in case['regs']:
+            if r.lower() in taken:
+                continue
+            for where, rules in operand_contexts:
+                got = first_rule(rules, r)
+                if got != 'variable.language.register':
+                    raise SystemExit(f'{where}: register {r!r} written as an operand is classified as {got}')
         out = {'vscode': [], 'sublime': []}
         for pr in case['probes']:
             vo = {_search(x, pr) for x in v_ops}
@@ -171,11 +224,13 @@ def gen_vocab_cases(rng, tier):
                 instrs.add(s + rng.choice(['x', 'i', '2', '_b']))      # names that are prefixes of one another
             if rng.random() < 0.25:
                 instrs.add(s + '.' + rng.choice(['b', 'w']))           # a regex metacharacter in a mnemonic
+            if rng.random() < 0.2:
+                instrs.add(rng.choice([s + '_', '_' + s]))             # a name that begins or ends with an underscore (a word character)
         instrs = sorted(instrs)
         rng.shuffle(instrs)
         macros = []
         if rng.random() < 0.6:
-            macros = [m for m in [rng.choice(['mac', 'dbl', 'pushall', 'ldm']) + rng.choice(['', '2', 'x']) for _ in range(rng.randint(1, 3))]
+            macros = [m for m in [rng.choice(['mac', 'dbl', 'pushall', 'ldm']) + rng.choice(['', '2', 'x', '_']) for _ in range(rng.randint(1, 3))]
                       if m not in instrs]
             macros = sorted(set(macros))
         # a macro named like the stem of a dotted mnemonic (mov / mov.b)
@@ -184,12 +239,14 @@ def gen_vocab_cases(rng, tier):
             stem = dotted[0].split('.')[0]
             instrs = [m for m in instrs if m != stem]
             macros = sorted(set(macros + [stem]))
-        regs = rng.sample(['a', 'b', 'hl', 'sp', 'ix', 'r10', 'r1'], rng.randint(0, 4))
+        # (some registers are spelled like a number literal of the language -- b1, AH -- or begin / end with an underscore)
+        regs = rng.sample(['a', 'b', 'hl', 'sp', 'ix', 'r10', 'r1', 'b1', 'b0', 'AH', 'ch', 'r_', '_t'], rng.randint(0, 5))
         labels = rng.sample(['VEC', 'RAMTOP', 'io_base', 'Kmax'], rng.randint(0, 3))
         names = instrs + macros + regs + labels
         probes = set(names)
         for nm in names:
-            probes.update([nm + 'x', 'x' + nm, nm.upper(), nm[:-1] if len(nm) > 1 else nm + 'q', nm.replace('.', 'z'), nm + '_', nm.capitalize()])
+            probes.update([nm + 'x', 'x' + nm, nm.upper(), nm[:-1] if len(nm) > 1 else nm + 'q', nm.replace('.', 'z'), nm + '_', nm.capitalize(),
+                           nm + 'mask', 'my' + nm])
         probes.update(['zz', 'org', 'byte', 'define', 'LSB', 'l', 'ldxx'])
         probes = sorted(p for p in probes if p)
         # the ISA file may spell mnemonics and macro names in any letter case; the vocabulary is their lower-case form
